@@ -513,6 +513,22 @@ func main() {
 			checkText(r, text, "escapes")
 		}
 	}
+	// long specifications of simple shape (depth- and length-related limits)
+	var sizes []int
+	for n := 1; n <= 40; n++ {
+		sizes = append(sizes, n)
+	}
+	sizes = append(sizes, 64, 65, 100, 128, 129, 300)
+	if !r.Quick() {
+		sizes = append(sizes, 1000, 3000)
+	}
+	ks := 0
+	ebnfref.Scaling(sizes, func(text, family string, n int) {
+		ks++
+		if r.MineIdx(ks) && !r.Expired() {
+			checkText(r, text, "scaling_"+family)
+		}
+	})
 	r.Assume("expected trees are derived from the reference parse tree (ref/ebnfref.ParseTokens) under the documented flattening: n-ary concatenation and alternation, transparent groups; positions are those of the first token of each construct")
 	r.Finish()
 }
